@@ -198,6 +198,11 @@ let handle fields =
        | Some (i, PValueError) -> "ValueError"
        | Some (i, PCalled (n, srcs)) ->
            "CALL " ^ string_of_int (int_of_nat i) ^ " " ^ string_of_int (int_of_nat n) ^ " " ^ String.concat "," (List.map show_src srcs))
+  | ["gather"; tbl; roots] ->
+      let ints s = if s = "" then [] else List.map (fun x -> nat_of_int (int_of_string x)) (String.split_on_char ',' s) in
+      let t = List.map ints (String.split_on_char ';' tbl) in
+      let n = List.length t in
+      String.concat " " (List.map (fun k -> string_of_int (int_of_nat k)) (gather (nat_of_int (n + 2)) t (ints roots)))
   | ["lstrip"; s] -> field_of_ustr (lstrip (ustr_of_field s))
   | ["rstrip"; s] -> field_of_ustr (rstrip (ustr_of_field s))
   | _ -> "BADCMD"
